@@ -17,8 +17,7 @@ working on bytes instead of runes makes no difference (`[^']` accepts any byte b
 
 The repaired `tryFastCompare` then refuses (falls back to the general evaluator for) the texts
 whose general meaning is *not* "look the column up and compare it with these literal bytes /
-this float64": a column called `nil`/`true`/`false` (expr-lang literals), an integer literal
-whose float64 image is not strictly inside ±2^53 (expr-lang compares it exactly), a string
+this float64": a column called `nil`/`true`/`false` (expr-lang literals), a string
 literal containing `\` (escapes), CR (normalised to LF by expr-lang) or invalid UTF-8 (replaced
 by U+FFFD). Core Lean only.
 -/
@@ -181,7 +180,7 @@ def RawCmp.denote (r : RawCmp) : Cmp := { field := r.field, op := r.op.toOp, lit
 
 /-- the literal can be served by the shortcut -/
 def RawLit.ok : RawLit → Bool
-  | .num neg ip none => litFastOk (.int (signed neg (digitsVal ip)))
+  | .num _ ip none => decide (roundNat53 (digitsVal ip) < 2 ^ 1024)     -- else ParseFloat: ErrRange
   | .num neg ip (some fp) => (parseDec neg ip fp).isSome
   | .str raw => rawStrOk raw
 
